@@ -323,7 +323,13 @@ fn run<F: Float>(c: &Case, budget: f64, maxlen: u32) -> CaseResult {
             }
             Call::CloneSwap => {
                 let c = obj.clone();
-                obj = c;
+                if step % 2 == 0 {
+                    obj = c;
+                } else {
+                    let mut fresh = FFT::<F>::new();
+                    fresh.clone_from(&c);
+                    obj = fresh;
+                }
                 st.label("continue-on-clone");
             }
             Call::FreshDefault => {
